@@ -204,11 +204,11 @@ func runVerify(o *runOpts) int {
 				continue
 			}
 			keep = append(keep, ob)
-			jobs = append(jobs, &solveJob{r.VC, ob})
+			jobs = append(jobs, &solveJob{ob.vc, ob})
 		}
 		r.Obls = keep
 		for _, ob := range r.Vacuity {
-			jobs = append(jobs, &solveJob{r.VC, ob})
+			jobs = append(jobs, &solveJob{ob.vc, ob})
 		}
 	}
 	solveAll(jobs, dir, o.timeout, o.tier == "thorough", o.par)
